@@ -26,7 +26,7 @@ HANG_IS_VIOLATION = True
 RULE = (
     "helpers h0..h3 from the co2 grammar; main = activate canary, canary2 (@loop), watcher, 0-2 immediate flows (finish|return|abort|raise "
     "before any wait), then start/activate every parameterless helper, then `match Never()`; fault = (helper, top-level position, kind) with kind "
-    "in {add-str, subscript, undefined-attr, bad-regex-match, bad-compare-match, surplus-args, priority-range, action-arg-type, none}; for each generated "
+    "in {add-str, subscript, undefined-attr, bad-regex-match (alone / with a child flow waiting for the same event / inside an or- or and-group), bad-compare-match, surplus-args, priority-range, action-arg-type, none}; for each generated "
     "program the quick tier draws the position, `enumerate_cases` walks every position x kind for a fixed family of programs; history of <=16 items "
     "incl. EvC. Non-trivial = the fault position was reached (marker `Reached` seen, or a head was parked on the faulty match when EvC arrived) or an "
     "immediate activated flow of kind abort/raise is present; distinct by case."
@@ -47,14 +47,38 @@ FAULTS = {
     "surplus-args": "await hlast 1 2 3 4 5",
     "priority-range": "priority 7.0",
     "action-arg-type": "await UtteranceBotAction(script=None)",
+    # the erroneous match has a relative (child flow / sibling head) waiting for the same event name
+    "bad-regex-match-with-child": 'start evcchild\nmatch EvC(v=regex("("))',
+    "bad-regex-match-or-group": 'match EvC(v=regex("(")) or EvC(v="other")',
+    "bad-regex-match-and-group": 'match EvC(v=regex("(")) and EvC()',
 }
-MATCH_FAULTS = ("bad-regex-match", "bad-compare-match")
+MATCH_FAULTS = ("bad-regex-match", "bad-compare-match", "bad-regex-match-with-child", "bad-regex-match-or-group", "bad-regex-match-and-group")
 IMMEDIATE = {
     "finish": ["send ImmOut()"],
     "return": ["return"],
     "abort": ["abort"],
     "raise": ['$z = 1 + "a"'],
+    # failing after an action statement but before the first wait (the flow is advanced twice while still starting)
+    "act-raise": ['start GestureBotAction(gesture="pre")', '$z = 1 + "a"'],
+    "act-abort": ['start GestureBotAction(gesture="pre")', "abort"],
+    "send-raise": ["send ImmOut()", '$z = 1 + "a"'],
+    # the first instance is fine; after EvZ set the global to 0 the *restarted* instance fails before its first wait
+    "cond-raise": ["global $gd", 'start GestureBotAction(gesture="pre")', "$z = 10 / $gd", "match EvC()", "send ImmDone()"],
+    "cond-raise-plain": ["global $gd", "$z = 10 / $gd", "match EvC()"],
 }
+MAIN_SURVIVES = ("finish", "return", "cond-raise", "cond-raise-plain")
+# Open known finding C10-F18: an activated flow whose only waits are for a child flow that finishes without any external event
+# restarts forever. These kinds are NOT generated (excluded by construction, see known_findings.json); they exist for the repro.
+KNOWN_IMMEDIATE = {
+    "child-finish": ["await immchild"],
+    "child-raise": ["await immchild", '$z = 1 + "a"'],
+}
+
+
+def known(case, violation):
+    if violation.kind in ("non-termination", "hang") and any(k in KNOWN_IMMEDIATE for k in case.get("imm", [])):
+        return "C10-F18"
+    return None
 
 
 class StepBudget(BaseException):
@@ -78,7 +102,7 @@ def _case(draw):
     first_wait = next(i for i, st_ in enumerate(helpers[h]["body"]) if st_["k"] in ("match", "matchg"))
     pos = draw(st.integers(first_wait + 1, len(helpers[h]["body"])))
     imm = draw(st.lists(st.sampled_from(list(IMMEDIATE)), max_size=2, unique=True))
-    hist_item = st.one_of(st.just(["evc"]), st.just(["evc"]), co2.history_item())
+    hist_item = st.one_of(st.just(["evc"]), st.just(["evc"]), st.just(["evz"]), co2.history_item())
     hist = draw(st.lists(hist_item, min_size=2, max_size=16))
     return {"helpers": helpers, "fault": {"kind": kind, "helper": h, "pos": pos}, "imm": imm, "hist": hist, "choices": draw(st.lists(st.integers(0, 3), max_size=2)), "activate_helpers": draw(st.booleans())}
 
@@ -104,9 +128,11 @@ def enumerate_cases(tier):
             for pos in range(1, len(fl["body"]) + 1):
                 for kind in FAULTS:
                     yield {"helpers": helpers, "fault": {"kind": kind, "helper": h, "pos": pos}, "imm": [], "hist": hist, "choices": [], "activate_helpers": False}
+    hist_z = [["evc"], ["evz"], ["evc"], ["evc"], ["ev", 0, None], ["evc"]]
     for imm in IMMEDIATE:
         for act in (False, True):
-            yield {"helpers": fam[0], "fault": {"kind": "none", "helper": 0, "pos": 0}, "imm": [imm], "hist": hist, "choices": [], "activate_helpers": act}
+            for h in (hist, hist_z):
+                yield {"helpers": fam[0], "fault": {"kind": "none", "helper": 0, "pos": 0}, "imm": [imm], "hist": h, "choices": [], "activate_helpers": act}
 
 
 def build(case):
@@ -117,17 +143,23 @@ def build(case):
         body = list(h["body"])
         pos = min(f["pos"], len(body))
         text = FAULTS[f["kind"]].replace("hlast", f"h{len(helpers) - 1}" if (f["helper"] % len(helpers)) != len(helpers) - 1 else "canaryhelper")
-        inj = [{"k": "raw", "text": text}] if f["kind"] in MATCH_FAULTS else [{"k": "raw", "text": "send Reached()"}, {"k": "raw", "text": text}]
+        lines = [{"k": "raw", "text": t} for t in text.split("\n")]
+        inj = lines if f["kind"] in MATCH_FAULTS else [{"k": "raw", "text": "send Reached()"}] + lines
         h["body"] = body[:pos] + inj + body[pos:]
         helpers[f["helper"] % len(helpers)] = h
     flows = list(helpers)
     flows.append({"name": "canaryhelper", "params": [], "loop": None, "body": [{"k": "raw", "text": "match NeverHelper()"}]})
+    flows.append({"name": "evcchild", "params": [], "loop": None, "body": [{"k": "raw", "text": "match EvC()"}, {"k": "raw", "text": "match NeverChild()"}]})
+    flows.append({"name": "immchild", "params": [], "loop": None, "body": [{"k": "raw", "text": "send ImmChildOut()"}]})
+    flows.append({"name": "gdsetter", "params": [], "loop": "setterloop", "body": [{"k": "raw", "text": "global $gd"}, {"k": "raw", "text": "match EvZ()"}, {"k": "raw", "text": "$gd = 0"}]})
     flows.append({"name": "canary", "params": [], "loop": None, "body": [{"k": "raw", "text": "match EvC()"}, {"k": "raw", "text": "send CanaryOut()"}]})
     flows.append({"name": "canary2", "params": [], "loop": "canaryloop", "body": [{"k": "raw", "text": "match EvC()"}, {"k": "raw", "text": "send Canary2Out()"}]})
     flows.append({"name": "watcher", "params": [], "loop": "watchloop", "body": [{"k": "raw", "text": "match ColangError() as $e"}, {"k": "raw", "text": "send SawError(t=$e.type)"}]})
-    main = [{"k": "raw", "text": "activate canary"}, {"k": "raw", "text": "activate canary2"}, {"k": "raw", "text": "activate watcher"}]
+    main = [{"k": "raw", "text": "global $gd"}, {"k": "raw", "text": "$gd = 1"}, {"k": "raw", "text": "activate canary"}, {"k": "raw", "text": "activate canary2"}, {"k": "raw", "text": "activate watcher"}, {"k": "raw", "text": "activate gdsetter"}]
     for i, kind in enumerate(case["imm"]):
-        flows.append({"name": f"imm{i}", "params": [], "loop": None, "body": [{"k": "raw", "text": t} for t in IMMEDIATE[kind]]})
+        body = IMMEDIATE.get(kind) or KNOWN_IMMEDIATE[kind]
+        # a loop of its own: a flow that reacts to the canary event must not compete with the canaries for an action
+        flows.append({"name": f"imm{i}", "params": [], "loop": "NEW", "body": [{"k": "raw", "text": t} for t in body]})
         main.append({"k": "raw", "text": f"activate imm{i}"})
     for h in helpers:
         if not h["params"]:
@@ -218,7 +250,7 @@ def prop(case):
         if "Reached" in types and "SawError" not in types:
             raise Violation("error-not-reported", f"fault {kind} reached at start but no ColangError was observed; events {types}\n{text}")
         main = [fs for fs in state.flow_states.values() if fs.flow_id == "main"]
-        if (not main or main[0].status.value != "started") and any(k in ("abort", "raise") for k in case["imm"]):
+        if (not main or main[0].status.value != "started") and any(k not in MAIN_SURVIVES for k in case["imm"]):
             # activating a flow that fails before it started legitimately fails main; only termination is asserted
             return ok(nt=True, labels=["fault-" + kind, "main-failed-by-failing-activation"] + ["imm-" + k for k in case["imm"]], view={"program": text})
         if not main or main[0].status.value != "started":
@@ -228,7 +260,9 @@ def prop(case):
             raise Violation(bad[0][0], f"after start: {bad[0][1]}\n{text}")
         for i, item in enumerate(case["hist"]):
             parked_fault = False
-            if item[0] == "evc":
+            if item[0] == "evz":
+                ev = {"type": "EvZ"}
+            elif item[0] == "evc":
                 ev = {"type": "EvC", "v": "x1"}
                 waiting = smh.scan_matchers(state).get("EvC", [])
                 parked_fault = any(state.flow_states[f].flow_id.startswith("h") for f, _ in waiting)
@@ -265,7 +299,7 @@ def prop(case):
         asyncio.set_event_loop(None)
         loop.close()
         rmod.asyncio.sleep = real_sleep
-    if reached or any(k in ("abort", "raise") for k in case["imm"]):
+    if reached or any(k not in ("finish", "return") for k in case["imm"]):
         nt = True
     labels = ["fault-" + kind, "reached" if reached else "not-reached"]
     labels += ["imm-" + k for k in case["imm"]]
